@@ -248,6 +248,18 @@ _ADDENDA = {
         "diagnostics is compared with the model's.",
  "C08": "  Values also reach the gate by reference to an object merged from three layers (found and repaired: const/enum vs merged objects, "
         "c0963c8); numeric keyword combinations and $ref chains with sibling keywords are enumerated.",
+ "C12": "  A panic inside the rewrite is an observation of the case (judged), not a skipped case; no tree handed to the emitter holds a "
+        "string yaml.v3 mangles (C12_encrypt/_decrypt_output_encodable, fix 9b9d633); the codec hypothesis of the text-level theorems is "
+        "shown satisfiable (C12_book_is_a_codec); every document also runs through yaml.v3 ALONE (parse, emit, parse) as a control: where "
+        "that control already loses or moves a comment beyond the weak projection, the comments of that document are not judged (counted).",
+ "C17": "  The real open / env open / env get commands are driven in process (hook 9a3e6ee); three interpreters execute every script and a "
+        "deviation only mvdan/sh shows is listed as that interpreter's quirk; file values shadowing a variable of the same name is refuted "
+        "(known finding C17-file-shadows-variable); values to 128 KiB and 1000 entries.",
+ "C18": "  The lossy class is exactly 5 of the 18 omitempty slice/map fields (C18_lossy_classes_cover, C18_roundtrip_tidy for the other 13); "
+        "the non-UTF-8 excuse applies only to values that reach the encoder with invalid UTF-8 (direct and base64-decoded sources).",
+ "C19": "  Known classes are excused only where the model reproduces the range and the recorded cause sits on the attached node; grapheme "
+        "widths are the answers of the external collaborator uniseg and travel on the wire; anchored slices are refuted; a crash is a "
+        "violation.",
 }
 for _k, _t in _ADDENDA.items():
     CHECKS[_k]["text"] = CHECKS[_k]["text"] + _t
